@@ -210,6 +210,40 @@ class ContractUse:
         return NotImplemented
 
 
+_CONCL = {}
+
+
+def pointwise_sum_hint(c, name, sum_term, term_fn, n):
+    """proof step for SUM(A, n) == SUM(lambda k. term_fn(k), n): proves the two summands equal at a
+    fresh index (forall-introduction) and concludes by lemma L4 (sums of pointwise equal arrays)"""
+    from .lib import SUM
+    if not (z3.is_app(sum_term) and sum_term.decl().name() == 'SUM'):
+        return None
+    A = sum_term.arg(0)
+    k = c.ctx.fresh_int('k!pw')
+    i = z3.Int('i!lam')
+    rhs = SUM(z3.Lambda([i], to_real(term_fn(i))), to_z3(n))
+    goal = z3.Implies(z3.And(0 <= k, k < to_z3(n), sum_term.arg(1) == to_z3(n)),
+                      z3.simplify(z3.Select(A, k)) == to_real(term_fn(k)))
+    c.I.used_lemmas.add('L4.sum_congruence')
+    return ('hint:' + name, goal, z3.Implies(sum_term.arg(1) == to_z3(n), sum_term == rhs))
+
+
+def pointwise_count_hint(c, name, cnt_term, pred_fn, n):
+    """as pointwise_sum_hint for CNT(B, n) == CNT(lambda t. pred_fn(t), n)"""
+    from .lib import CNT
+    if not (z3.is_app(cnt_term) and cnt_term.decl().name() == 'CNT'):
+        return None
+    B = cnt_term.arg(0)
+    t = c.ctx.fresh_int('t!pw')
+    i = z3.Int('i!cnt')
+    rhs = CNT(z3.Lambda([i], to_z3(pred_fn(i))), to_z3(n))
+    goal = z3.Implies(z3.And(0 <= t, t < to_z3(n), cnt_term.arg(1) == to_z3(n)),
+                      z3.simplify(z3.Select(B, t)) == to_z3(pred_fn(t)))
+    c.I.used_lemmas.add('L4.count_congruence')
+    return ('hint:' + name, goal, z3.Implies(cnt_term.arg(1) == to_z3(n), cnt_term == rhs))
+
+
 def _list(case, attr, *a, **kw):
     f = getattr(case, attr, None)
     if f is None:
@@ -221,7 +255,11 @@ def _list(case, attr, *a, **kw):
 def _pairs(case, attr, *a, **kw):
     out = []
     for item in _list(case, attr, *a, **kw):
-        if isinstance(item, tuple):
+        if isinstance(item, tuple) and len(item) == 3:
+            # ('hint:..', goal, conclusion): proof step with a generalised conclusion
+            _CONCL[item[1].get_id() if hasattr(item[1], 'get_id') else id(item[1])] = item[2]
+            out.append((item[0], item[1]))
+        elif isinstance(item, tuple):
             out.append(item)
         else:
             out.append(('clause%d' % len(out), item))
@@ -321,6 +359,7 @@ def run_case(case, repo=None, registry=None, opts=None):
                         # this path only if discharged; never reported as a violation
                         o = ctx.oblige('%s.%s' % (case.case, nm), g, kind='hint')
                         o.hints = list(hints)
+                        o.conclusion = _CONCL.pop(g.get_id(), None) if hasattr(g, 'get_id') else None
                         hints.append(o)
                     else:
                         o = ctx.oblige('%s.ensures.%s' % (case.case, nm), g, kind='post')
